@@ -135,21 +135,39 @@ func cmdRemote(args []string) {
 	default:
 		// one schedule per fault kind first (seeded choice among those ending with that kind while output is being copied), the rest seeded
 		used := map[string]bool{}
-		for _, kind := range []string{"cut", "relay", "remote", "submitter"} {
+		pick := func(f func(schedule) bool) {
 			var c []schedule
 			for _, s := range all {
-				if len(s.Faults) > 0 && s.Faults[len(s.Faults)-1].Kind == kind && s.Faults[len(s.Faults)-1].When >= 1 {
+				if f(s) && !used[s.key()] {
 					c = append(c, s)
 				}
 			}
 			if len(c) > 0 && len(chosen) < *maxScen {
 				s := c[rng.Intn(len(c))]
-				if !used[s.key()] {
-					used[s.key()] = true
-					chosen = append(chosen, s)
-				}
+				used[s.key()] = true
+				chosen = append(chosen, s)
 			}
 		}
+		last := func(s schedule) faultStep {
+			if len(s.Faults) == 0 {
+				return faultStep{}
+			}
+
+			return s.Faults[len(s.Faults)-1]
+		}
+		for _, kind := range []string{"cut", "relay", "remote"} {
+			k := kind
+			pick(func(s schedule) bool { return s.Link != "bursty" && last(s).Kind == k && last(s).When >= 1 })
+		}
+		// the submitting daemon dies while its record is final and its copy is not (last chunk, see run)
+		pick(func(s schedule) bool {
+			return s.Link != "bursty" && last(s).Kind == "submitter" && last(s).When == maxWhen
+		})
+		// a link that delivers in bursts: once undisturbed, once with a fault that makes the mirror ask again
+		pick(func(s schedule) bool { return s.Link == "bursty" && len(s.Faults) == 0 })
+		pick(func(s schedule) bool {
+			return s.Link == "bursty" && last(s).When >= 1 && (last(s).Kind == "cut" || last(s).Kind == "relay")
+		})
 		// at least one schedule whose last fault strikes while the LAST chunk is on its way: held until the remote unit
 		// has finished, it produces "final status mirrored before the tail of the output" (status ahead of output)
 		lastChunk := func(s schedule) bool { return len(s.Faults) > 0 && s.Faults[len(s.Faults)-1].When == maxWhen }
@@ -331,6 +349,7 @@ func (sc *scenario) run() {
 	}
 	// producer on c
 	n := sc.nChunks
+	periodic := sc.sched.Link == "bursty" && rng.Intn(4) == 0 // see below; a link that is bursty all the time is slow
 	cum := make([]int64, n+1)
 	var sb strings.Builder
 	sb.WriteString("#!/bin/bash\ntrap 'exit 130' INT TERM\n")
@@ -346,7 +365,9 @@ func (sc *scenario) run() {
 				big = true // a fault is to strike while this chunk is being copied
 			}
 		}
-		if big {
+		if big && periodic {
+			sz = 20*1024 + rng.Int63n(40*1024)
+		} else if big {
 			sz = 150*1024 + rng.Int63n(250*1024)
 		} else {
 			sz = 50 + rng.Int63n(3000)
@@ -377,7 +398,7 @@ func (sc *scenario) run() {
 		// later become readable in the same instant.  Two variants (seeded): periodic bursts, or a stall of 300-700 ms
 		// that begins whenever the output mirror issues a request (hook event rw_out_req in a's trace file).
 		sc.ra.NewestFirst.Store(true) // within a burst the data messages arrive newest first (loss + retransmission)
-		if rng.Intn(3) == 0 {
+		if periodic {
 			p := time.Duration(600+rng.Intn(500)) * time.Millisecond
 			sc.rec.BurstMs = p.Milliseconds()
 			sc.ra.SetBurst(p)
